@@ -1,7 +1,7 @@
 #!/usr/bin/env python3
 """Mutation campaign: how many small changes of the functions under contract does the proof layer notice?
 
-usage: python3-vt tools/mutation_campaign.py <property> [--per-function N] [--seed S] [--native]
+usage: python3-vt tools/mutation_campaign.py <property> [--per-function N] [--seed S] [--native] [--only TEXT]
 
 For every verified function of the property (contracts/properties.py) the source text of the function is mutated by
 simple operators (comparison / arithmetic / boolean / index tweaks), one mutant at a time, in a scratch copy of the
@@ -85,6 +85,7 @@ def main():
     ap.add_argument("--per-function", type=int, default=8)
     ap.add_argument("--seed", type=int, default=0)
     ap.add_argument("--native", action="store_true")
+    ap.add_argument("--only", default="", help="only functions whose qualified name contains this text; the report goes to mutation/<property>-<only>.json")
     a = ap.parse_args()
     from contracts import properties as P
     cfg = P.PROPS[a.pid]
@@ -96,7 +97,7 @@ def main():
     for q in cfg["functions"]:
         base = q.split("#")[0]
         fi = repo.funcs.get(base)
-        if fi is None or base in seen_fn:
+        if fi is None or base in seen_fn or a.only not in base:
             continue
         seen_fn.add(base)
         variants = [x for x in cfg["functions"] if x.split("#")[0] == base]
@@ -153,7 +154,7 @@ def main():
     from collections import Counter
     report["summary"] = dict(Counter(m["verdict"] for m in report["mutants"]))
     os.makedirs(os.path.join(VERIF, "mutation"), exist_ok=True)
-    json.dump(report, open(os.path.join(VERIF, "mutation", a.pid + ".json"), "w"), indent=1)
+    json.dump(report, open(os.path.join(VERIF, "mutation", a.pid + ("-" + a.only if a.only else "") + ".json"), "w"), indent=1)
     print("SUMMARY", a.pid, report["summary"])
 
 
